@@ -765,8 +765,9 @@ def lockTrace (st : St) (op : Op Nat Nat) (line : String) : String :=
 def step (st : St) (line : String) : St × String :=
   match (stripVia line.trimAscii.toString).splitOn " " with
   | "case" :: fl :: _ =>
-    -- `w…` flavours: the same code instantiated with a key type whose hashes collide; the model has no hashes
-    let fl' := if fl.startsWith "w" then (fl.drop 1).toString else fl
+    -- `w…` / `z…` flavours: the same code instantiated with a key type whose hashes collide resp. with zero-sized
+    -- node and edge values (programs of the latter only use the value 0); the model has neither hashes nor sizes
+    let fl' := if fl.startsWith "w" || fl.startsWith "z" then (fl.drop 1).toString else fl
     ({ directed := fl' == "di" || fl' == "sdi", fl := fl' }, "case")
   | ["new", k, v] => match k.toNat?, v.toInt? with
     | some k, some v => ({ st with keys := st.keys ++ [k], nvals := st.nvals ++ [(k, v)] }, "ok")
